@@ -345,6 +345,55 @@ def impl_prog(spec, prog):
             return err_token(e)
 
 
+IMAGE_STREAMS = ("small-scope", "small-scope-flavours", "roi-stack", "random-programs", "commute", "corpus")
+
+
+def wants_image(case):
+    """cases whose get_image() is also compared pixel for pixel with the model's own pixel values (op c07.image): untethered
+    programs on small stacks"""
+    if case["op"] != "prog" or case["stream"] not in IMAGE_STREAMS:
+        return False
+    spec = case["spec"]
+    if sum(spec["files"]) * spec["h"] * spec["w"] * bt.n_samples(spec) > 720:
+        return False
+    return not any(st[0] in ("T", "k") for st in case["prog"])
+
+
+def show_image(spec, arr):
+    """[frame, row, col(, colour)] -> `image <frame/frame/…>|<sample 1>|…`, one block per STORED sample"""
+    arr = np.asarray(arr)
+    if spec["colour"] == "grey":
+        planes = [arr]
+    else:
+        keep = [c for c, k in enumerate(sample_channels(spec)) if k is not None]
+        planes = [arr[..., c] for c in keep]
+        for c, k in enumerate(sample_channels(spec)):
+            if k is None and np.any(arr[..., c] != 0):
+                return "image channel-not-empty"
+    def frame(f):
+        return "[" + ";".join(",".join(str(int(v)) for v in row) for row in f) + "]"
+    return "image " + "|".join("/".join(frame(f) for f in pl) for pl in planes)
+
+
+def impl_image(spec, prog):
+    with warnings.catch_warnings():
+        warnings.simplefilter("ignore")
+        try:
+            stack, _, _ = stacks().get(spec)
+            out, _ = run_prog(stack, prog)
+            shape = tuple(int(x) for x in out.shape)
+            img = np.asarray(out.get_image())
+            if img.size != int(np.prod(shape)):
+                return f"image size {img.size} for shape {shape}"
+            return show_image(spec, img.reshape(shape))
+        except Exception as e:
+            return err_token(e)
+
+
+def image_line(spec, prog):
+    return f"c07.image {bt.n_samples(spec)} " + run_line(spec, prog)[len("c07.run "):]
+
+
 def first_frame(stack):
     img = np.asarray(stack.get_image())
     return img.reshape(tuple(int(x) for x in stack.shape))[0]
@@ -543,6 +592,8 @@ def impl(case):
     if k == "beads":
         return [impl_beads(case["spec"], case["prog"])]
     if k == "prog":
+        if wants_image(case):
+            return [impl_prog(case["spec"], case["prog"]), impl_image(case["spec"], case["prog"])]
         return [impl_prog(case["spec"], case["prog"])]
     if k == "commute":
         return [impl_prog(case["spec"], case["prog"]), impl_prog(case["spec"], case["prog2"])]
@@ -613,6 +664,8 @@ def ops(case):
     if k == "prog":
         if is_kymo(case["prog"]):
             return [kymo_line(case["spec"], case["prog"])]
+        if wants_image(case):
+            return [run_line(case["spec"], case["prog"]), image_line(case["spec"], case["prog"])]
         return [run_line(case["spec"], case["prog"])]
     if k == "commute":
         return [run_line(case["spec"], case["prog"]), run_line(case["spec"], case["prog2"])]
@@ -745,7 +798,9 @@ def agree_beads(case, ia, ma):
         return False
     if not beads_pre_ok(case["spec"], case["prog"], o):
         return True  # the spots cannot be followed on this stack: nothing to compare
-    land = [[[dec_float(v) for v in pt.split(",")] for pt in ch.split(";")] for ch in mt[8].split("|")]
+    if [f"nf={o['nf']}"] + [str(v) for v in o["shape"][:3]] != [mt[8]] + mt[9][len("shape="):].split("x"):
+        return False
+    land = [[[dec_float(v) for v in pt.split(",")] for pt in ch.split(";")] for ch in mt[-1].split("|")]
     for frame in o["post"]:
         if len(frame) != len(land):
             return False
@@ -787,12 +842,17 @@ def agree(case, i, ia, ma):
     if case["op"] in ("prog", "commute"):
         if case["op"] == "prog" and is_kymo(case["prog"]):
             return agree_kymo(case, ia, ma)
+        if case["op"] == "prog" and i == 1:
+            return ia == ma  # c07.image: pixel values (or the error) literally
         if not ma.startswith("ok "):
             return ia == ma
         mt = ma.split(" ")
         if not ia.startswith("ok "):
             return False
         it = ia.split(" ")
+        # num_frames and shape (without the colour axis) as the model's Stack.shape
+        if it[8] != mt[8] or it[9].split("x")[:3] != mt[9].split("x"):
+            return False
         return all(a == UNSEEN or a == b for a, b in zip(it[1:3], mt[1:3])) and it[3:7] == mt[3:7] and tether_close(it[7], mt[7])
     if ia == UNSEEN:
         return True  # an internal helper with no public counterpart for this input could not be reached: nothing to compare
@@ -967,6 +1027,17 @@ def oracle_prog(spec, prog, ans):
     return None
 
 
+def oracle_image(spec, prog, ans):
+    """get_image() of the result is the same NumPy indexing of the full [frame, row, column(, colour)] array"""
+    try:
+        pages, rows, cols, _ = simulate(spec, prog)
+    except Expect as e:
+        return None if ans == e.token else f"error-clause: numpy/array semantics give {e.token}, get_image() path says {ans[:100]}"
+    full = np.asarray(bt.full_array(spec))
+    exp = show_image(spec, full[np.asarray(pages)][:, rows[0] : rows[-1] + 1, cols[0] : cols[-1] + 1])
+    return None if ans == exp else f"pixels: get_image() differs from the same numpy indexing of the full array: {ans[:120]} vs {exp[:120]}"
+
+
 def oracle_kymo(spec, prog, pages, rows, cols, geo, ans):
     """pixel values along the tether row reduced (sum) over the half window, per frame; line time and start from
     the frame timestamps.  Only for horizontal left-to-right tethers (identity warp)."""
@@ -1081,7 +1152,10 @@ def oracle(case, ia):
     if k == "beads":
         return oracle_beads(case["spec"], case["prog"], ia[0])
     if k == "prog":
-        return oracle_prog(case["spec"], case["prog"], ia[0])
+        r = oracle_prog(case["spec"], case["prog"], ia[0])
+        if r is None and len(ia) == 2:
+            r = oracle_image(case["spec"], case["prog"], ia[1])
+        return r
     if k == "commute":
         for prog, a in ((case["prog"], ia[0]), (case["prog2"], ia[1])):
             r = oracle_prog(case["spec"], prog, a)
@@ -1807,12 +1881,30 @@ def extra_coverage(results):
             files[len(s["files"])] = files.get(len(s["files"]), 0) + 1
             for st in c["prog"]:
                 lens[st[0]] = lens.get(st[0], 0) + 1
+    image_cases, kymo_branches = {}, {}
+    for r in results:
+        c = r["case"]
+        if c["op"] == "prog" and len(r["impl"]) == 2:
+            key = c["stream"] + (" (pixels)" if r["impl"][1].startswith("image ") else " (raises)")
+            image_cases[key] = image_cases.get(key, 0) + 1
+        if c["op"] == "prog" and is_kymo(c["prog"]):
+            a = r["impl"][0]
+            if a.startswith("kymo "):
+                hw = c["prog"][-1][1]
+                key = "kymograph, half window " + ("0 (single row, no reduction)" if hw == 0 else "> 0 (rows summed)")
+                if kymo_left_outside(c):
+                    key += ", left tether end outside the image (clamped)"
+                if kymo_left_outside(c, whole=True):
+                    key += " - F20b"
+            else:
+                key = "refused: " + a.split(":")[0]
+            kymo_branches[key] = kymo_branches.get(key, 0) + 1
     unseen = sum(1 for r in results for a in r["impl"] if a == UNSEEN or f" {UNSEEN} " in a or "src=" + UNSEEN in a)
     return {
         "internal_helpers_reached": {k: v is not None for k, v in sorted(_PRIVATE.items())},
         "answers_with_unobserved_internals": unseen,
         "case_kinds": kinds, "error_kinds": errs, "stack_sizes": sizes, "colour_formats": colours, "files_per_stack": files,
-        "operations_by_kind": lens, "bead_cases_followed": beads, "exhaustive": False,
+        "operations_by_kind": lens, "get_image_pixel_comparisons": image_cases, "to_kymo_branches": kymo_branches, "bead_cases_followed": beads, "exhaustive": False,
         "exhaustive_note": "small-scope, roi-exhaustive, py-selftest, pages, legacy streams enumerate their finite spaces "
                            "completely; random-programs, commute, kymo streams are seeded samples",
     }
